@@ -40,8 +40,11 @@ def site_classes(rows):
             key = ("muladd", "canon" if canon else "unchecked", s)
         elif r["hint"] == "InverseHint":
             key = ("inverse", "canon" if r["out_canon"][0] > 0 else "unchecked", mi[0])
-        else:
+        elif r["hint"] == "SplitLimbsHint":
             key = ("split", r["out_bits"][0] + "," + r["out_bits"][1], 0)
+        else:
+            # a hint GlGadgets.tla has no game for: probed by the FOREIGN guard (generic alternatives), not by the site lemma
+            key = ("foreign", r["hint"], 0)
         classes.setdefault(key, []).append(r)
     return classes
 
@@ -157,7 +160,7 @@ def run(ctx):
                 picks += rest
             else:
                 picks.append(rnd.choice(rest))
-        strats = STRATS[row["hint"]]
+        strats = STRATS.get(row["hint"], [])
         if ctx.tier == "quick" and site not in bad_sites:
             # quick: every site gets the field-wrap alternative and one seeded other alternative
             strats = [strats[0]] + ([rnd.choice(strats[1:])] if len(strats) > 1 else [])
